@@ -119,6 +119,25 @@ def get_dataflow(U, rep):
           found = True
   rep.check(found, 'R10.3', 'loader: elasticity is a per-geom custom (default 0.0)', 'elasticity is no longer read as a per-geom custom value',
             where=fc.where())
+  # per-geom customs keep exactly ngeom entries: the world-body padding applies to body-typed values only,
+  # and the per-type size table maps 'geom' to mj.ngeom
+  from braxlint import pred
+  pads, sizes = [], []
+
+  def on_assign(s_, pc, env, N):
+    if isinstance(s_, ast.Assign) and isinstance(s_.value, ast.Call) and (ast.unparse(s_.value.func).endswith('concatenate')):
+      pads.append((s_, pred.atoms_of(pc)))
+    if isinstance(s_, ast.Assign) and isinstance(s_.targets[0], ast.Name) and s_.targets[0].id == 'size':
+      sizes.append(pred.show(N.term(s_.value, env)))
+
+  pred.sym_walk(fc.node, fc.mod, on_assign=on_assign, drop_raise_negations=False)
+  okpad = bool(pads) and all(any(a.endswith("∈ {'body'}") for a in pc) for _, pc in pads)
+  rep.check(okpad, 'R10.3', 'loader: only body-typed customs are padded for the world body',
+            'a custom value that is not body-typed (e.g. the per-geom elasticity) gets an extra leading entry, so geom g reads the '
+            'elasticity of geom g-1', where=fc.where(pads[0][0]) if pads else fc.where(),
+            construct='; '.join(sorted(pads[0][1])) if pads else '')
+  rep.check(any("'geom':mj.ngeom" in x for x in sizes), 'R10.3', 'loader: geom-typed customs have mj.ngeom entries',
+            'the size table no longer maps geom-typed customs to mj.ngeom', where=fc.where())
 
 
 def no_alias(U, rep, tier):
